@@ -9,8 +9,9 @@
     covered by a theorem: there the rendered bytes are compared with the generator's denotation on generated
     templates and environments by the C01 check.  Attribute names are covered for plain characters (F06).
     OBLIGATIONS: C01_static_tree_reads_as_its_html C01_static_body_reads_as_its_html C01_static_template_code
-                 C01_static_template_literal_value C01_static_document_survives_whitespace_pass C01_nonvacuous *)
-From GV Require Import Compiler.Compile Base.Regex Proofs.Utf8Proofs Proofs.QuoteProofs Proofs.EmitProofs Proofs.StaticProofs Proofs.StaticNukeProofs.
+                 C01_static_template_literal_value C01_static_document_survives_whitespace_pass
+                 C01_template_with_interpolation_code C01_segments_of_static_tree C01_nonvacuous C01_nonvacuous_dynamic *)
+From GV Require Import Compiler.Compile Base.Regex Proofs.Utf8Proofs Proofs.QuoteProofs Proofs.EmitProofs Proofs.StaticProofs Proofs.StaticNukeProofs Proofs.DynamicProofs Proofs.SegProofs.
 From Coq Require Import Lia.
 Open Scope N_scope.
 
@@ -60,6 +61,25 @@ Theorem C01_static_document_survives_whitespace_pass : forall l,
 Proof. exact nuke_static_document. Qed.
 Print Assumptions C01_static_document_survives_whitespace_pass.
 
+(** templates with interpolation and `=` scripts (no control flow): the generated body is a run of literal chunks
+    and dynamic blocks, [denotes], standing for the segments [segs_list body]: literal HTML ([SLit]) and, for each
+    `= expr` / `#{expr}`, the EscapeString-ed value of the expression ([SDyn]).  [eval_segs rho] is the document
+    under a valuation [rho] of the Go expressions; what Go does with a [denotes] run (a literal's value is appended,
+    a dynamic block appends the escaped value or returns the error) is the trusted step. *)
+Theorem C01_template_with_interpolation_code : forall o body,
+  Forall dyn_node body ->
+  exists m' code,
+    denotes 2 false m' code (segs_list body) /\
+    item_err (Node (KGoht o) body) = None /\
+    item_text (Node (KGoht o) body) =
+      lit "func " ++ t_lit o ++ c_gohtEntry ++ code ++ (if m' then close_text (Lo 2) else []) ++ c_gohtExit.
+Proof. exact dyn_template_code. Qed.
+Print Assumptions C01_template_with_interpolation_code.
+
+Theorem C01_segments_of_static_tree : forall rho n, static_node n -> eval_segs rho (segs_of n) = html_node n.
+Proof. exact eval_static. Qed.
+Print Assumptions C01_segments_of_static_tree.
+
 (** the hypotheses are met by what the parser produces for a real template, and the denoted HTML is the expected one *)
 Definition ex_src : bytes :=
   lit "@goht T() {" ++ [10; 9] ++ lit "!!!" ++ [10; 9] ++ lit "%p#i.c.d{a: ""v<"", b}" ++ [10; 9; 9] ++ lit "t & <b>" ++ [10; 9; 9] ++
@@ -108,3 +128,38 @@ Proof.
     end.
 Qed.
 Print Assumptions C01_nonvacuous.
+
+(** a real template with interpolation inside an element and a script line: its body is in the fragment, and its
+    segments are the expected ones *)
+Definition ex2_src : bytes :=
+  lit "@goht T(a string) {" ++ [10; 9] ++ lit "%p.c hello #{a}!" ++ [10; 9] ++ lit "= a" ++ [10] ++ lit "}" ++ [10].
+Definition ex2_items : list node :=
+  Eval vm_compute in match compile_parse ex2_src with ODone (Node _ items) None => items | _ => [] end.
+
+Example C01_nonvacuous_dynamic :
+  match ex2_items with
+  | Node (KGoht o) body :: _ =>
+      Forall dyn_node body /\
+      eval_segs (fun e => lit "<" ++ e ++ lit ">") (segs_list body) =
+        lit "<p class=""c"">hello &lt;a&gt;!</p>" ++ [10] ++ lit "&lt;a&gt;" ++ [10]
+  | _ => False
+  end.
+Proof.
+  cbv [ex2_items]. split; [|vm_compute; reflexivity].
+  Ltac dn1 :=
+    match goal with
+    | |- _ /\ _ => split
+    | |- Forall _ [] => constructor
+    | |- Forall _ (_ :: _) => constructor
+    | |- True => exact I
+    | |- dyn_node _ => cbn [dyn_node]
+    | |- dyn_text _ => unfold dyn_text, static_text; cbn
+    | |- static_elem _ => unfold static_elem; cbn
+    | |- static_class _ => unfold static_class; cbn
+    | |- bytes_ok _ => unfold bytes_ok; cbn
+    | |- _ \/ true = true => right; reflexivity
+    | |- _ \/ false = true => left
+    end.
+  repeat dn1. all: try lia; try discriminate; try reflexivity.
+Qed.
+Print Assumptions C01_nonvacuous_dynamic.
